@@ -4,7 +4,7 @@ A harness = one bounded-model-checking query:
   name     wrapper fn generated into the injected module (also the evidence / log key)
   call     body of the wrapper: a call of a k_* function of harness/kani/<prop>.rs
   tiers    subset of ('quick', 'thorough')
-  timeout  seconds (time-out => inconclusive, exit 2)
+  timeout  seconds (time-out => the harness is reported UNDECIDED, never counted as held)
   mem_gb   address-space cap of the cbmc process
   unwind   #[kani::unwind(n)] (unwinding assertions are always on)
   stubs    [(original, replacement)] -> #[kani::stub]
